@@ -239,7 +239,7 @@ def check(tier, seed):
                             {"component": "c17", "theorem_or_correspondence": "correspondence c17: extracted run_dump vs harness/c17.cpp", "case": l2, "impl": i2, "model": m2}, False)
     return c.finish(
         assumptions=["histories never read a moved-from vector before it is reassigned (unspecified in the dense semantics)",
-                     "coordinates fit the coordinate type; instantiations U = std::size_t, std::uint8_t, std::uint16_t", "large coordinates (up to 2^64-2) are run through the model under a strictly increasing renaming, which every operation commutes with (only order comparisons of coordinates are used)"],
+                     "coordinates fit the coordinate type; instantiations U = std::size_t, std::uint8_t, std::uint16_t", "large coordinates (up to SIZE_MAX) and the narrow coordinate types are run through the model under a strictly increasing renaming; that the model commutes with every such renaming is Properties_C17_rename.C17_rename_invariance (no longer an assumption)"],
         explanation="Theorem C17_histories_refine_dense proves the model equal to the dense computation for all histories; "
                     "this run ties the model to include/parmcb/spvecgf2.hpp by exact comparison of store contents and observer outputs.")
 
